@@ -1,7 +1,12 @@
 """Runs Updater / Accumulator operation sequences on the real implementation (inferno.neural.modeling,
 inferno.functional.bounding); canonical traces out.
 
-Case: {"host": "double"|"dense", "params": [[id, shape, [values]]...], "ops": [[kind, ...]...]}
+Case: {"host": "double"|"dense", "params": [[id, shape, [values]]...], "ops": [[kind, ...]...],
+       "trainer": {"primary": k, "extra": bool, "none": bool}   (dense hosts only, optional)}
+With "trainer" the connection is put in a Biclique layer and a CellTrainer gets k cells of THIS connection
+(two different cells c0-n0 / c0-n1 and, for k = 3, the first one again under another name: all share the one
+updater), optionally a cell of a second connection with its own updater ("extra") and a cell of a third connection
+whose updater is deleted after registration ("none").  Operation ["tupdate", kw] is trainer.update(**kwargs).
 Trace: per operation [[0, output] | [1, exception code], snapshot]; floats are ["F", kind, mantissa, exponent]."""
 import torch
 import torch.nn as nn
@@ -9,7 +14,8 @@ from common import main, exc_code, fhex
 import inferno
 import inferno.functional as IF
 from inferno import Module
-from inferno.neural import Updater, Updatable, LinearDense, DeltaCurrent
+from inferno.neural import Updater, Updatable, LinearDense, DeltaCurrent, LIF, Biclique
+from inferno.learn import CellTrainer
 
 KEEP = []  # the Updater only weak-references its parent
 
@@ -90,6 +96,42 @@ class Runner:
             if 1 in self.ids:
                 self.h.bias = ts[1]
         KEEP.append(self.h)
+        self.trainer = self.x = self.z = None
+        t = case.get("trainer")
+        if t and self.kind == "dense":
+            self.mk_trainer(t)
+
+    def mk_trainer(self, t):
+        out_, in_ = self.shapes[0]
+
+        def conn():
+            c = LinearDense((in_,), (out_,), 1.0, synapse=DeltaCurrent.partialconstructor(1.0), bias=False)
+            c.weight = torch.zeros(out_, in_)
+            c.updater = c.defaultupdater()
+            return c
+
+        def lif():
+            return LIF((out_,), 1.0, rest_v=-60.0, reset_v=-65.0, thresh_v=-50.0, refrac_t=0.0, time_constant=20.0)
+        conns = [("c0", self.h)]
+        if t.get("extra"):
+            self.x = conn()
+            conns.append(("c1", self.x))
+        if t.get("none"):
+            self.z = conn()
+            conns.append(("c2", self.z))
+        # CellTrainer.add_cell demands an updater at registration time; the module starts without one (as in the model)
+        self.h.updater = self.h.defaultupdater()
+        self.layer = Biclique(conns, [("n0", lif()), ("n1", lif())])
+        self.trainer = CellTrainer()
+        for i in range(int(t.get("primary", 0))):
+            self.trainer.add_cell(f"p{i}", self.layer.get_cell("c0", f"n{i % 2}"))
+        if self.x is not None:
+            self.trainer.add_cell("x", self.layer.get_cell("c1", "n0"))
+        if self.z is not None:
+            self.trainer.add_cell("z", self.layer.get_cell("c2", "n1"))
+            del self.z.updater
+        del self.h.updater
+        KEEP.append((self.layer, self.trainer, self.x, self.z))
 
     def part(self, nm, vals):
         if vals is None:
@@ -169,6 +211,25 @@ class Runner:
             h.updater = Updater(h, *[N[i] for i in op[1]], reduction=REDS[op[2]]); return [0]
         if k == "delupdater":
             del h.updater; return [0]
+        if k == "tupdate":
+            # trainer.update(**kwargs); returns [3, n] with n = how often the SECOND connection's updater was applied
+            # (-1: the trainer has no cell of a second connection)
+            kws = {} if op[1] is None else {"clear": bool(op[1])}
+            napp = -1
+            if self.x is not None:
+                before = self.x.weight.detach().clone()
+                self.x.updater.weight = torch.full_like(before, 0.25)
+            try:
+                self.trainer.update(**kws)
+                if self.x is not None:
+                    d = ((self.x.weight.detach() - before) / 0.25).reshape(-1)
+                    napp = int(round(float(d[0])))
+                    if not bool(torch.all(d == float(napp))):
+                        napp = -2
+            finally:
+                if self.x is not None:
+                    self.x.updater.clear()
+            return [3, napp]
         raise AssertionError(k)
 
     def snapshot(self):
